@@ -1,4 +1,5 @@
 import Cell2v.Lemmas.Modules
+import Cell2v.Lemmas.ModulesChain
 import Cell2v.Gen.C11Modules
 /-!
 C11 — property theorems: modules start in order, stop in reverse; each phase
@@ -232,6 +233,124 @@ theorem d21_witness :
   rcases hm with rfl | rfl
   · exact .inl ⟨true, by simp⟩
   · exact .inr (by simp)
+
+/-! ## nested Start/Stop calls and a completion callback that panics (`Chain`)
+
+The theorems above treat one action of a module as atomic.  In Go a module that reports inside its
+Start/Stop runs the rest of the phase — the successors' Start/Stop and finally `finish`, the caller's
+completion callback — *inside that call*, under as many deferred `recover()`s as there are active
+`doFunc`s.  `Chain` keeps that stack; `fp` = "the completion callback panics" (user code: the closure
+of `App.Start`, of `StartNode` — a service creator that panics —, the caller's `fin`). -/
+
+/-- Whatever the modules do (report inside Start/Stop or later, panic before or after reporting,
+return) and whether or not the completion callback panics: the log of the chain is the log of the
+action-level wrapper model on the actions the wrappers have seen — so every theorem about `wrun`
+(`modlist_phase_disciplined`, `panic_before_report_fails_phase`, `modlist_phase_completes`, …)
+holds for it — and the flags are those of that model. -/
+theorem chain_refines_wrapper (fp : Bool) (n : Nat) (fwd : Bool) (ops : List COp) :
+    (Chain.run fp n fwd ops).log = wrun n fwd (Chain.run fp n fwd ops).acts ∧
+      (Chain.run fp n fwd ops).ws = wstate {} (Chain.run fp n fwd ops).acts := by
+  have h := ChainRef_runFrom (n := n) (fwd := fwd) fp ops _ (ChainRef_init fp n fwd)
+  exact ⟨h.2.2, h.1⟩
+
+/-- The stack discipline: every module whose Start/Stop is active, except the innermost one, is inside
+its own report — its `reported` flag is set (the flag is set *before* `next` runs). -/
+theorem chain_stack_reported (fp : Bool) (n : Nat) (fwd : Bool) (ops : List COp) :
+    ∀ x ∈ (Chain.run fp n fwd ops).stack.tail, x ∈ (Chain.run fp n fwd ops).ws.reported :=
+  StackOK_runFrom fp ops _ (StackOK_init fp n fwd)
+
+/-- **a panicking completion callback changes nothing but the Go stack**: from every reachable state,
+for every next move, the log (in particular: how often `finish` is invoked, which modules are
+entered), the wrappers' flags and `Filter`'s index are the same whether the callback returns or
+panics; the panic only cuts active Start/Stop calls short (the stack afterwards is a suffix).  The
+wrapper that recovers it belongs to a module that has already reported, so it calls nothing. -/
+theorem callback_panic_only_unwinds (fp0 : Bool) (n : Nat) (fwd : Bool) (ops : List COp) (op : COp) :
+    ((Chain.run fp0 n fwd ops).step true op).log = ((Chain.run fp0 n fwd ops).step false op).log ∧
+      ((Chain.run fp0 n fwd ops).step true op).ws = ((Chain.run fp0 n fwd ops).step false op).ws ∧
+      ((Chain.run fp0 n fwd ops).step true op).ml = ((Chain.run fp0 n fwd ops).step false op).ml ∧
+      ((Chain.run fp0 n fwd ops).step true op).stack <:+ ((Chain.run fp0 n fwd ops).step false op).stack :=
+  step_fp_indep _ (StackOK_runFrom fp0 ops _ (StackOK_init fp0 n fwd)) op
+
+/-- … hence, with modules that keep the discipline, the phase log is canonical and `finish` is invoked
+at most once — also when it panics each time it is invoked. -/
+theorem chain_disciplined_canonical (fp : Bool) (n : Nat) (fwd : Bool) (ops : List COp)
+    (hd : Disciplined (Chain.run fp n fwd ops).log) :
+    canonB (ord n fwd) (Chain.run fp n fwd ops).log = true ∧ (finishes (Chain.run fp n fwd ops).log).length ≤ 1 := by
+  rw [(chain_refines_wrapper fp n fwd ops).1] at hd ⊢
+  exact ⟨disciplined_log_canonical n fwd _ hd, finish_at_most_once n fwd _ hd⟩
+
+/-- **a Start/Stop call is unwound by at most one panic** — a structural fact of the Go stack, proved for the
+chain instead of assumed: every panic a wrapper sees (the module's own, or the completion callback's
+travelling through) is of a module that has been entered and that no panic has unwound before. -/
+theorem chain_panics_disciplined (fp : Bool) (n : Nat) (fwd : Bool) (ops : List COp) (p : List MAct) (w : Nat) (q : List MAct)
+    (heq : (Chain.run fp n fwd ops).acts = p ++ MAct.panic w :: q) :
+    Ev.enter w ∈ wrun n fwd p ∧ MAct.panic w ∉ p :=
+  (ChainOK_runFrom fp ops _ (ChainRef_init fp n fwd) (ChainOK_init fp n fwd)).2.2 p w q heq
+
+/-- … so the only thing left to ask of the modules is about their *reports*: if every report is made
+by a module that has been entered and has not reported before, the actions are disciplined
+(`MDisciplined`, the hypothesis of `modlist_phase_disciplined` / `panic_before_report_fails_phase` /
+`modlist_phase_completes`), the log is canonical and the completion callback is invoked at most once —
+whether it returns or panics. -/
+theorem chain_mdisciplined (fp : Bool) (n : Nat) (fwd : Bool) (ops : List COp)
+    (hrep : ∀ p w b q, (Chain.run fp n fwd ops).acts = p ++ MAct.report w b :: q →
+      Ev.enter w ∈ wrun n fwd p ∧ ∀ b', MAct.report w b' ∉ p) :
+    MDisciplined n fwd (Chain.run fp n fwd ops).acts ∧
+      canonB (ord n fwd) (Chain.run fp n fwd ops).log = true ∧ (finishes (Chain.run fp n fwd ops).log).length ≤ 1 := by
+  have hm : MDisciplined n fwd (Chain.run fp n fwd ops).acts := by
+    intro p a q heq
+    cases a with
+    | report w b =>
+      obtain ⟨h1, h2⟩ := hrep p w b q heq
+      exact ⟨h1, fun w' b' he b'' => (by cases he; exact h2 b''), fun w' he => (by cases he)⟩
+    | panic w =>
+      obtain ⟨h1, h2⟩ := chain_panics_disciplined fp n fwd ops p w q heq
+      exact ⟨h1, fun w' b' he => (by cases he), fun w' he => (by cases he; exact h2)⟩
+  have h := modlist_phase_disciplined n fwd _ hm
+  rw [(chain_refines_wrapper fp n fwd ops).1]
+  exact ⟨hm, h.2.1, h.2.2⟩
+
+/-- non-vacuity of `chain_mdisciplined` (the callback panics; module 1 panics before reporting) -/
+example : ∀ p w b q, (Chain.run true 2 true [.report true, .panic]).acts = p ++ MAct.report w b :: q →
+    Ev.enter w ∈ wrun 2 true p ∧ ∀ b', MAct.report w b' ∉ p := by
+  have ha : (Chain.run true 2 true [.report true, .panic]).acts = [.report 0 true, .panic 1, .panic 0] := by decide
+  intro p w b q heq
+  rw [ha] at heq
+  match p with
+  | [] => simp at heq; obtain ⟨⟨rfl, rfl⟩, _⟩ := heq; exact ⟨by decide, by simp⟩
+  | [_] => simp at heq
+  | [_, _] => simp at heq
+  | _ :: _ :: _ :: r => simp at heq
+
+/-- non-vacuity / what it looks like (the callback panics): two modules report inside Start — the panic
+of `finish(true)` is recovered by module 1's wrapper, module 0's Start goes on; module 1 panics before
+reporting — the wrapper's `finish(false)` panics inside the deferred handler, leaves module 1's `doFunc`
+and is recovered by module 0's wrapper (only logged); a single module panics — the callback's panic
+reaches the caller of `Start`; a delayed report on its own goroutine — it reaches the caller of `next`. -/
+example :
+    (Chain.run true 2 true [.report true, .report true]).log =
+        [.enter 0, .call 0 true, .enter 1, .call 1 true, .finish true] ∧
+      (Chain.run true 2 true [.report true, .report true]).stack = [0] ∧
+      (Chain.run true 2 true [.report true, .report true]).escaped = false ∧
+    (Chain.run true 2 true [.report true, .panic]).log =
+        [.enter 0, .call 0 true, .enter 1, .call 1 false, .finish false] ∧
+      (Chain.run true 2 true [.report true, .panic]).stack = [] ∧
+      (Chain.run true 2 true [.report true, .panic]).escaped = false ∧
+    (Chain.run true 1 true [.panic]).log = [.enter 0, .call 0 false, .finish false] ∧
+      (Chain.run true 1 true [.panic]).escaped = true ∧
+    (Chain.run true 1 true [.ret, .late 0 true]).log = [.enter 0, .call 0 true, .finish true] ∧
+      (Chain.run true 1 true [.ret, .late 0 true]).escaped = true ∧
+    Disciplined (Chain.run true 2 true [.report true, .report true]).log := by
+  refine ⟨by decide, by decide, by decide, by decide, by decide, by decide, by decide, by decide, by decide, by decide, ?_⟩
+  exact (disciplinedB_iff _).mp (by decide)
+
+/-- **why `reported = true` stands before `next(succ)`** (seeded change C11-ind7-m1): with the two
+statements swapped the flag is still unset while `finish` runs, the wrapper takes the callback's panic
+for a failure of its module and calls `next(false)`: the completion callback is invoked a second time. -/
+theorem reported_flag_order_witness :
+    finishes (Chain.reportBySwapped true (Chain.init true 1 true) 0 true).log = [true, false] ∧
+    finishes (Chain.reportBy true (Chain.init true 1 true) 0 true).log = [true] := by
+  decide
 
 /-! ## a module list that grows while the phase runs (`AddModule` between completions) -/
 
